@@ -97,6 +97,13 @@ def r01_3(facts, res):
                             if q.get("p") == "Bind" and q["lid"] in tainted and q["lid"] not in used:
                                 dead.append(q["name"])
                     unused = unused + ["%s (built from the payload, never used)" % d for d in dead]
+                    # an arm guard may only ask whether the payload is empty: `Text(v) if !v.is_empty()`.  A guard on a derived
+                    # value (`!v.trim().is_empty()`) sends white-space-only text to the catch-all arm, i.e. drops it.
+                    g = arm.get("guard")
+                    if g is not None and binds:
+                        calls = [m["m"] for m in walk(g) if m.get("k") == "MethodCall"]
+                        if calls != ["is_empty"]:
+                            unused = unused + ["guard `%s` narrows the arm" % ".".join(reversed(calls))]
                     has_payload = bool(binds) or wild
                     body_empty = arm["body"].get("k") == "Block" and not arm["body"].get("stmts") and "expr" not in arm["body"]
                     drops = (wild and has_payload and variant != "_" and _variant_has_fields(facts, sty, variant)) or unused or \
@@ -395,6 +402,7 @@ def run(facts, tier):
     r01_12(facts, res)
     r01_13(facts, res)
     r01_14(facts, res)
+    c11.c11_8(facts, res, "R01-15")
     c11.c11_1(facts, res, "R01-11")     # attribute values after reference expansion: the arms of the two expansion routines
     # a well-formed start tag may carry a:id next to b:id: the duplicate test has to compare whole names (shared with C02)
     from props import c02
